@@ -169,6 +169,30 @@ _add6("C18", "the original-recipient table is created only where there is none a
 _add6("C14", "the hash functions (signature of the compute / verify registries) never assign, re-slice, index or transform their password parameter (R3d); user-name keys that are parameters of new helpers are judged at the helpers' call sites.")
 _add6("C17", "in framework/address and framework/dns no byte of a string is converted to a rune or a string; character copies range over the string (R7); the domain handed to idna.ToUnicode by the key functions has its ASCII letters lowered first (R4c, assumption A3 about the decoder demonstrated in findings/).")
 _add6("C19", "every send / receive on a bucket channel is a case of a select with a default branch, a range over a bucket follows its close in the same function (R8); implementations of Conn.Usable close nothing (R9).")
+# ---- fifth round (DESIGN.md §R.13)
+def _add7(id, text_extra):
+    tech, text, note, ref = CLAIMED[id]
+    CLAIMED[id] = (tech, text + " Fifth round: " + text_extra, note, ref + ", §R.13")
+_S = "E5b (on every successful path on which a call effect of the reference tree occurs, the field store that followed it there still occurs) and E6 (a variable declared and updated inside a loop body in the reference tree is still declared inside that loop), evaluated – like E5 – on the property's functions and their direct callees inside the server"
+for _id in list(CLAIMED):
+    _add7(_id, _S + ".")
+_add5("C02", "The commit record is written after header and body were synced (R1d).")
+_add5("C03", "Roll-back inside the limiter group and the remote target's destination permits (C11.R2 evaluated as R5c).")
+_add5("C04", "Results of LookupMulti are never written through (R5c); a table's Lookup never makes 'found' depend on an empty value (R9b).")
+_add5("C06", "A named check group is merged by copy (C04.R5b as R6); the remote target refuses quarantined mail on both body paths (C05.R8 as R5b); every recipient block a recipient was routed to is registered for the body stage (R1c).")
+_add5("C07", "The context of the asynchronous policy fetch outlives the function that starts it (R8); applyResults comes after the body checks of every scope on both body paths (C06.R1 as R9).")
+_add5("C09", "The translating collector reads a table owned by its delivery, filled where the rewrite is recorded (K9); the queue's collector files under the key it is called with (C10.R6 as K8).")
+_add5("C10", "The default spool directory is per instance (R7); the commit record is written last (C02.R1d as R7b).")
+_add5("C11", "An entry leaves the remote delivery's connection table only together with its permit (R2c); roll-back by deferred closures is understood.")
+_add5("C12", "Add's wake-up cannot be dropped (R7b); a recovered record is re-scheduled at a time that depends only on that record (R10).")
+_add5("C13", "An AD flag read next to a response's answers is that response's (R5c); override connections are never pooled (C05.R3/R4 as R7).")
+_add5("C14", "sasllogin hands the responses over verbatim (R3e); NormalizeAuto is a PRECIS profile on both branches (R1b).")
+_add5("C15", "Every configurable normaliser is pure, package-level sync/atomic values included (R9).")
+_add5("C16", "A constant code stored into an error built from a literal moves the class digit of the same variable with it (R1f).")
+_add5("C17", "The escape state of UnquoteMbox is a flag raised only in the backslash case and lowered after every copied character (R8).")
+_add5("C18", "Diagnostic-Code text is cleared of CR and LF individually (R11).")
+_add5("C19", "Nothing registered with the configuration map is read before cfg.Process(): the pool is built from the processed settings (R10).")
+_add5("C20", "Import expansion is bounded in total by a budget shared with imported files, not only in depth (R3b).")
 for _id in list(CLAIMED):
     tech, text, note, ref = CLAIMED[_id]
-    CLAIMED[_id] = (tech, text, note + "; rules are form-agnostic (named booleans, if/switch, loop forms, extracted helpers, renamed unexported functions and fields – DESIGN.md §R.7) and measured against a corpus of 34 behaviour-preserving refactorings (functions the reference tree did not have are read as part of their callers – §R.10) (refactorings/, refacall.sh)", ref)
+    CLAIMED[_id] = (tech, text, note + "; rules are form-agnostic (named booleans, if/switch, loop forms, extracted helpers, renamed unexported functions and fields – DESIGN.md §R.7) and measured against a corpus of 35 behaviour-preserving refactorings (functions the reference tree did not have are read as part of their callers – §R.10) (refactorings/, refacall.sh)", ref)
